@@ -80,6 +80,10 @@ fn outputs(c: &mut Case<'_>) -> CaseResult {
     };
     c.set_sample(|| json!({"op": op, "cfg": format!("{cfg:?}"), "output": generated.to_json(), "status_override": status.map(|s| s.as_u16()), "extra_headers": n_extra, "wire_status": wresp.status}));
 
+    // (d) what the response body announces about its own length is what a server frames the response by
+    if let Some(f) = &wresp.framing {
+        return Err(c.fail(format!("body-framing:{op}"), format!("{op}: {f} (a server would announce that length / end the response there, a client would decode other bytes than the backend returned)")));
+    }
     // (b) status
     let has_content_range = generated.field("content_range").is_some_and(|t| *t != Tree::Absent);
     let expected_status = match status {
